@@ -14,7 +14,8 @@ from ..common import LCG, V, samples_of, seed_offset
 def compositions(tier, seed):
     cs = [{"gravity": 0.65, "T": 300.0, "cont": [0.03, 0.012, 0.018], "dry": "dry gas"},
           {"gravity": 0.8, "T": 200.0, "cont": [0.0, 0.0, 0.0], "dry": "wet gas"}]
-    cs += [{"gravity": 0.95, "T": 95.0, "cont": [0.02, 0.15, 0.03], "dry": "wet gas"},  # cold heavy sour gas, T_r ~ 1.25
+    cs += [{"gravity": 0.7, "T": 215.75, "cont": [0.01, 0.0, 0.02], "dry": "dry gas", "int_pmax": True},
+           {"gravity": 0.95, "T": 95.0, "cont": [0.02, 0.15, 0.03], "dry": "wet gas"},  # cold heavy sour gas, T_r ~ 1.25
            {"gravity": 0.57, "T": 120.0, "cont": [0.0, 0.0, 0.0], "dry": "dry gas"},
            {"gravity": 1.1, "T": 400.0, "cont": [0.05, 0.01, 0.04], "dry": "wet gas"},
            {"gravity": 0.9, "T": 250.0, "cont": [0.1, 0.0, 0.0], "dry": "dry gas"},
@@ -34,7 +35,7 @@ def eval_comp(case):
     from bluebonnet.fluids import fluid as fluid_mod  # noqa: PLC0415
 
     g, T, cont, dry = case["gravity"], case["T"], case["cont"], case["dry"]
-    pmax = case["pmax"]
+    pmax = int(case["pmax"]) if case.get("int_pmax") else case["pmax"]  # the default 14_000 is an int
     vals = {"N2": cont[0], "H2S": cont[1], "CO2": cont[2], "Gas Specific Gravity": g,
             "Reservoir Temperature (deg F)": T}
     # history: the same process first builds neighbouring tables that differ in exactly one argument
@@ -44,7 +45,7 @@ def eval_comp(case):
     build_pvt_gas(dict(vals, **{"Gas Specific Gravity": g + 0.05}), dry, maximum_pressure=pmax)
     build_pvt_gas(dict(vals, **{"Reservoir Temperature (deg F)": T + 25.0}), dry, maximum_pressure=pmax)
     build_pvt_gas(dict(vals, N2=cont[0] + 0.02), dry, maximum_pressure=pmax)
-    build_pvt_gas(dict(vals), dry, maximum_pressure=pmax - 500.0)
+    build_pvt_gas(dict(vals), dry, maximum_pressure=pmax - 500)
     tab = build_pvt_gas(dict(vals), dry, maximum_pressure=pmax)
     nh = gas.make_nonhydrocarbon_properties(*cont)
     tpc, ppc = gas.pseudocritical_point_Sutton(g, nh, dry)
